@@ -1,14 +1,41 @@
-/* c36_vars.hpp: the per-rank globals of the C36 test program (drivers/c36_prog.cpp + c36_vars_a.cpp + c36_vars_b.cpp).
- * Every variable has an id; c36_get / c36_set dispatch to the translation unit that owns it.  See vf/props/c36.py for the table. */
+/* c36_vars.hpp: the per-rank globals of the C36 test programs (drivers/c36_prog*.cpp + c36_vars_a.cpp + c36_vars_b.cpp).
+ * Every scalar variable has an id (c36_get / c36_set dispatch to the translation unit that owns it) and every ARRAY has an id
+ * (c36_aget / c36_aset / c36_alen: any element).  See vf/props/c36.py for the tables.
+ *
+ * C36_SCALE chooses the sizes of the uninitialised arrays, i.e. how far .bss spills past the last file-backed page of the data segment
+ * (the part that mmap privatization has to find in the anonymous mapping that follows):
+ *     1: ~6 kB of .bss     2: ~20 kB     3: ~36 kB     0 (default): 1.2 MB (+ 280 kB of .data) */
 #pragma once
-constexpr int C36_NVARS = 24;
-constexpr int C36_NBUF  = 64;
+#ifndef C36_SCALE
+#define C36_SCALE 0
+#endif
+#if C36_SCALE == 1
+constexpr long C36_N_BIG = 1000, C36_N_MID = 300, C36_N_FS = 100, C36_N_DATA = 1500;
+#elif C36_SCALE == 2
+constexpr long C36_N_BIG = 3000, C36_N_MID = 1500, C36_N_FS = 200, C36_N_DATA = 1500;
+#elif C36_SCALE == 3
+constexpr long C36_N_BIG = 6000, C36_N_MID = 2500, C36_N_FS = 256, C36_N_DATA = 3000;
+#else
+constexpr long C36_N_BIG = 300000, C36_N_MID = 5000, C36_N_FS = 2048, C36_N_DATA = 70000;
+#endif
+constexpr long C36_N_ARR  = 1024;  /* a_arr: initialised */
+constexpr long C36_N_MAIN = 700;   /* main_bss: shorts */
+constexpr int C36_NVARS  = 24;
+constexpr int C36_NARRS  = 6;
+constexpr int C36_NBUF   = 64;
 long long c36_get_a(int id);
 void c36_set_a(int id, long long v);
 long long c36_get_b(int id);
 void c36_set_b(int id, long long v);
 long long c36_get_main(int id);
 void c36_set_main(int id, long long v);
+/* arrays: 0 a_arr (int, .data)  1 a_big_bss (int, .bss)  2 b_mid_bss (static int, .bss, file b)  3 function-static long array (file b)
+ *         4 b_big_data (int, .data, file b)  5 main_bss (static short, .bss, main file) */
+long c36_alen(int arr);
+long long c36_aget_a(int arr, long idx);
+void c36_aset_a(int arr, long idx, long long v);
+long long c36_aget_b(int arr, long idx);
+void c36_aset_b(int arr, long idx, long long v);
 /* communication buffers that are themselves globals */
 extern int c36_sbuf[C36_NBUF];       /* initialised data, file a */
 int* c36_rbuf();                     /* static BSS array of file b */
